@@ -13,8 +13,6 @@ import (
 
 // notApplicable gives the reason for properties that are deliberately not claimed.
 var notApplicable = map[string]string{
-	"C38": "delete semantics is a semantic diff of graphs before/after an edit; needs execution or a reference model, which is a different technique family",
-	"C39": "rename/move semantics is a semantic diff of graphs before/after an edit; needs execution or a reference model",
 }
 
 func writeManifest() error {
